@@ -1362,7 +1362,7 @@ def assemble(verif_root, repo_root, unit, out_path):
             'unit_rules': ['%s%s' % (r, ('(' + ', '.join('%s=%s' % kv for kv in a.items()) + ')') if a else '') for r, a in unit_rules]}
 
 
-TRUST_PAT = re.compile(r'(assume_specification|external_body|external_fn_specification|external_type_specification|\badmit\s*\(|\bassume\s*\(|verifier::truncate|verifier::external\b|uninterp\b|verifier::nonlinear|verifier::spinoff_prover)')
+TRUST_PAT = re.compile(r'(assume_specification|external_body|\baxiom\s+fn\b|external_fn_specification|external_type_specification|\badmit\s*\(|\bassume\s*\(|verifier::truncate|verifier::external\b|uninterp\b|verifier::nonlinear|verifier::spinoff_prover)')
 
 
 def ghost_lines(text):
@@ -1385,7 +1385,7 @@ def scan_trusted(text):
     lines = clean.split('\n')
     for i, l in enumerate(lines):
         for m in TRUST_PAT.finditer(l):
-            kind = m.group(1).strip('( ').strip()
+            kind = re.sub(r'\s+', ' ', m.group(1).strip('( ').strip())
             # describe: next non-empty line containing fn/struct
             desc = l.strip()
             if 'fn ' not in desc and 'struct ' not in desc and '[' not in desc:
